@@ -14,7 +14,7 @@
    neighbour" is list adjacency.
 
    [dedup] distinguishes the code as it is (false) from the code with the
-   repair of finding F13 (true): tell_many_at_point ignores seeds already
+   repair of finding F21 (true): tell_many_at_point ignores seeds already
    known at x, as tell does. *)
 From AV Require Import Base.Prelude Model.AvgNum.
 Set Implicit Arguments.
@@ -251,7 +251,7 @@ Section Avg1D.
 
   (* abscissae inside the bounds; a batch is a dict (distinct seeds), not
      empty; with the code as it is ([dedup] = false) the batch path is only
-     covered for seeds not yet known at x (finding F13 otherwise) *)
+     covered for seeds not yet known at x (finding F21 otherwise) *)
   Definition legal_flat_op (c : cfg) (s : st) (o : op) : bool :=
     match o with
     | Ask n _ => 1 <=? n
